@@ -350,6 +350,45 @@ func TestRaceCold(t *testing.T) {
 			must(err)
 			act(func() { _, _ = rf.GetPwm() })
 		}
+		if rd%5 == 1 {
+			// controllers as the daemon's own start-up code builds them (InitializeObjects, initializeFanControllers):
+			// several fans WITHOUT a controlAlgorithm (default PID loop), two with rate limits of their own - every
+			// controller cycles in its own goroutine; what the start-up code hands to one controller belongs to it alone
+			bdir := filepath.Join(dir, "boot"+sfx)
+			must(os.MkdirAll(bdir, 0755))
+			writeInt(filepath.Join(bdir, "temp"), 61000)
+			bc := configuration.Configuration{DbPath: filepath.Join(bdir, "db"), ControllerAdjustmentTickRate: 100 * time.Millisecond,
+				TempRollingWindowSize: 5, RpmRollingWindowSize: 5,
+				Sensors: []configuration.SensorConfig{{ID: "bs" + sfx, File: &configuration.FileSensorConfig{Path: filepath.Join(bdir, "temp")}}},
+				Curves:  []configuration.CurveConfig{{ID: "bc" + sfx, Linear: &configuration.LinearCurveConfig{Sensor: "bs" + sfx, Min: 40, Max: 80}}}}
+			for k := 0; k < 5; k++ {
+				pp := filepath.Join(bdir, fmt.Sprintf("pwm%d", k))
+				writeInt(pp, 100+k)
+				fc := configuration.FanConfig{ID: fmt.Sprintf("bf%d%s", k, sfx), Curve: "bc" + sfx, File: &configuration.FileFanConfig{Path: pp}}
+				if k >= 3 {
+					lim := 3 + 20*(k-3)
+					fc.ControlAlgorithm = &configuration.ControlAlgorithmConfig{Direct: &configuration.DirectControlAlgorithmConfig{MaxPwmChangePerCycle: &lim}}
+				}
+				bc.Fans = append(bc.Fans, fc)
+			}
+			saved := configuration.CurrentConfig
+			configuration.CurrentConfig = bc
+			prometheus.DefaultRegisterer = prometheus.NewRegistry() // (the start-up code registers its collectors once per process)
+			fanMap, err := internal.InitializeObjects()
+			must(err)
+			ctls, err := internal.VerifInitializeFanControllers(persistence.NewPersistence(bc.DbPath), fanMap)
+			must(err)
+			configuration.CurrentConfig = saved
+			for _, c := range ctls {
+				dc := c.(*controller.DefaultFanController)
+				id := map[int]int{}
+				for v := 0; v <= 255; v++ {
+					id[v] = v
+				}
+				dc.VerifSetPwmMap(id)
+				act(func() { _ = dc.UpdateFanSpeed() })
+			}
+		}
 		close(gate)
 		cw.Wait()
 		done++
